@@ -19,6 +19,15 @@ pub fn route_keys(sel: i64, v: i64) -> Vec<i64> {
     match sel.rem_euclid(3) { 0 => vec![v.rem_euclid(3)], 1 => vec![v.rem_euclid(3), v.rem_euclid(2)], _ => vec![v.rem_euclid(2), v.rem_euclid(2), v.rem_euclid(3)] }
 }
 
+/// `W::<T>(..).is_send_sync()` is true iff `T: Send + Sync` (the inherent method wins when the bound holds, else the
+/// method of the deref target is found)
+struct W<T>(std::marker::PhantomData<T>);
+struct NotSendSync;
+impl NotSendSync { fn is_send_sync(&self) -> bool { false } }
+impl<T: Send + Sync> W<T> { fn is_send_sync(&self) -> bool { true } }
+impl<T> std::ops::Deref for W<T> { type Target = NotSendSync; fn deref(&self) -> &NotSendSync { &NotSendSync } }
+macro_rules! send_sync { ($t:ty) => { (stringify!($t), W::<$t>(std::marker::PhantomData).is_send_sync()) }; }
+
 enum H {
     S(Stream<i64>), SS(StreamSink<i64>), C(Cell<i64>), CS(CellSink<i64>), SL(StreamLoop<i64>), CL(CellLoop<i64>),
     R(Arc<Router<i64, i64>>, i64), L(Listener), Z(Lazy<i64>, Arc<Mutex<u32>>), T(Option<Transaction>), P, Dropped,
@@ -242,6 +251,83 @@ impl Api {
                 });
                 std::mem::forget(outer);      // a strong listener: the context keeps it; the script cannot unlisten it
                 self.h.insert(l.to_string(), H::P); ok() }
+            ["latehold", l, trig, s, init] => { fresh!(l); let (trig, s, init) = (need!(self.s(trig)), need!(self.s(s)), need!(num(init)));
+                // a cell built inside a listener handler (of another stream), during propagation: it must take up the event its
+                // stream has in that very transaction; every event of the stream then reports the value the cell had before it
+                let log = self.log.clone(); let name = l.to_string();
+                let keep: Arc<Mutex<Vec<Listener>>> = Arc::new(Mutex::new(vec![]));
+                let outer = trig.once().listen(move |_k: &i64| {
+                    let c = s.hold(init);
+                    let (log, name) = (log.clone(), name.clone());
+                    let li = s.snapshot1(&c).listen(move |v: &i64| log.lock().unwrap().push((name.clone(), *v)));
+                    keep.lock().unwrap().push(li);
+                });
+                std::mem::forget(outer);
+                self.h.insert(l.to_string(), H::P); ok() }
+            ["handlerlisten", l, trig, s] => { fresh!(l); let (trig, s) = (need!(self.s(trig)), need!(self.s(s)));
+                // a listener registered on `s` from inside the handler of another stream: it is told the event `s` has in
+                // that very transaction, whether or not `s` was updated before the handler ran
+                let log = self.log.clone(); let name = l.to_string();
+                let keep: Arc<Mutex<Vec<Listener>>> = Arc::new(Mutex::new(vec![]));
+                let outer = trig.once().listen(move |_k: &i64| {
+                    let (log, name) = (log.clone(), name.clone());
+                    let li = s.listen(move |v: &i64| log.lock().unwrap().push((name.clone(), *v)));
+                    keep.lock().unwrap().push(li);
+                });
+                std::mem::forget(outer);
+                self.h.insert(l.to_string(), H::P); ok() }
+            ["lateloop", l, trig, s, k] => { fresh!(l); let (trig, s, k) = (need!(self.s(trig)), need!(self.s(s)), need!(num(k)));
+                // a StreamLoop created, used and closed (onto `s`) inside the handler of another stream
+                let log = self.log.clone(); let name = l.to_string(); let ctx = self.ctx.clone();
+                let keep: Arc<Mutex<Vec<Listener>>> = Arc::new(Mutex::new(vec![]));
+                let outer = trig.once().listen(move |_k: &i64| {
+                    let sl: StreamLoop<i64> = ctx.new_stream_loop();
+                    let m = sl.stream().map(move |v: &i64| f1(k, *v));
+                    let (log, name) = (log.clone(), name.clone());
+                    let li = m.listen(move |v: &i64| log.lock().unwrap().push((name.clone(), *v)));
+                    sl.loop_(&s);
+                    keep.lock().unwrap().push(li);
+                });
+                std::mem::forget(outer);
+                self.h.insert(l.to_string(), H::P); ok() }
+            ["switchnest", x, c, sel, cands @ ..] => { fresh!(x); if c == sel { return "skip".into(); } let (c, sel) = (need!(self.c(c)), need!(self.c(sel))); if cands.is_empty() { return "skip".into(); }
+                // a switch built by a mapping function: every value of `c` builds a fresh `switch_s` over `sel`'s choice among
+                // the candidates, and the result switches to it: the same as that switch built outside
+                let mut cv: Vec<Stream<i64>> = vec![]; for s in cands { cv.push(need!(self.s(s))); }
+                let mut deps: Vec<Dep> = cv.iter().map(|s| s.to_dep()).collect();
+                deps.push(sel.to_dep());
+                let n = cv.len() as i64;
+                let outer = c.map(lambda1(move |_k: &i64| {
+                    let cv = cv.clone();
+                    let cdeps: Vec<Dep> = cv.iter().map(|s| s.to_dep()).collect();
+                    Cell::switch_s(&sel.map(lambda1(move |k: &i64| cv[k.rem_euclid(n) as usize].clone(), cdeps)))
+                }, deps));
+                self.h.insert(x.to_string(), H::S(Cell::switch_s(&outer))); ok() }
+            ["leafdrop", l, trig, s, kind] => { fresh!(l); let (trig, s, kind) = (need!(self.s(trig)), need!(self.s(s)), need!(num(kind)));
+                // an unobserved primitive on `s` whose only handle is dropped by the handler of another stream's first event,
+                // possibly while its node is already queued for update in that transaction: nothing may happen
+                let leaf: Box<dyn std::any::Any + Send> = match kind.rem_euclid(6) {
+                    0 => Box::new(s.map(|v: &i64| f1(1, *v))),
+                    1 => Box::new(s.hold(0)),
+                    2 => Box::new(s.filter(|v: &i64| p1(1, *v))),
+                    3 => Box::new(s.merge(&trig, |a: &i64, b: &i64| f2(1, *a, *b))),
+                    4 => Box::new(s.once()),
+                    _ => Box::new(s.map(|v: &i64| f1(2, *v)).hold(1).map(|v: &i64| f1(3, *v))),
+                };
+                let slot: Arc<Mutex<Option<Box<dyn std::any::Any + Send>>>> = Arc::new(Mutex::new(Some(leaf)));
+                let outer = trig.once().listen(move |_k: &i64| { *slot.lock().unwrap() = None; });
+                std::mem::forget(outer);
+                self.h.insert(l.to_string(), H::P); ok() }
+            ["sendsync"] => {
+                // C20 "all handles are Send and Sync": decided per type at compile time (autoref specialisation), reported at run time
+                let v: Vec<(&str, bool)> = vec![
+                    send_sync!(SodiumCtx), send_sync!(Stream<i64>), send_sync!(Cell<i64>), send_sync!(StreamSink<i64>), send_sync!(CellSink<i64>),
+                    send_sync!(StreamLoop<i64>), send_sync!(CellLoop<i64>), send_sync!(Listener), send_sync!(Lazy<i64>), send_sync!(Router<i64, i64>),
+                    send_sync!(Transaction),
+                ];
+                let bad: Vec<&str> = v.iter().filter(|x| !x.1).map(|x| x.0).collect();
+                if bad.is_empty() { "sendsync=ok".into() } else { format!("sendsync=BAD {}", bad.join(",")) }
+            }
             ["listenkill", l, x, victim] => { fresh!(l);
                 // a listener whose handler unlistens another listener (every time it runs): from then on the victim must stay silent,
                 // also for the rest of the transaction in which this happens
